@@ -880,6 +880,13 @@ func (sw *Switch) addPeer(p Peer) error {
 				" err ", "Peer has already errored and removal was attempted.",
 				"peer", p.ID())
 		}
+		// The peer has been started above. It is not in the peer set, so nothing
+		// else will ever stop it; and if it were left running, its eventual
+		// connection error would go through StopPeerForError and remove the
+		// peer that IS registered under this ID.
+		if err := p.Stop(); err != nil {
+			sw.Logger.Error("Error stopping refused peer", "err", err, "peer", p.ID())
+		}
 		return err
 	}
 	sw.metrics.Peers.Add(float64(1))
